@@ -8,7 +8,7 @@ package mem
 //@ spec overlaps(n *types.Alert, o *types.Alert) bool =
 //@     (n.EndsAt > o.StartsAt && n.EndsAt < o.EndsAt) || (n.StartsAt > o.StartsAt && n.StartsAt < o.EndsAt)
 //@ func (*Alerts).Put
-//@   props C13
+//@   props C13 C18
 //@   ensures [monitor-lock-released] count("Mutex).Lock") == count("Mutex).Unlock") && count("Mutex).Lock") == 1
 //@   at call store.Alerts).Get assert [monitor-lock-held] count("Mutex).Lock") == 1 && count("Mutex).Unlock") == 0
 //@   abstract
@@ -30,10 +30,15 @@ package mem
 //@   at call store.Alerts).Get assert [fan-out-of-the-previous-alert-complete] count("select") == count("PostStore") * len(a.listeners)
 //@   at call chan.send assert [subscribers-are-offered-the-stored-version] arg0 != nil && arg0.Data == ((ret1("store.Alerts).Get") == nil && overlaps(alerts[rangeindex1 + 1], ret("store.Alerts).Get"))) ? ret("Alert).Merge") : alerts[rangeindex1 + 1])
 //@   ensures [best-effort] result == nil
+//@   ensures [every-limit-refusal-is-counted] count("Counter).Inc") == counttrue0("errors.Is") + counttrue0("sendcase.taken") && count("errors.Is") == count("store.Alerts).Set") - countnil0("store.Alerts).Set")
+//@   at call CounterVec).WithLabelValues assert [refusals-on-the-limit-counter] (ret("store.Alerts).Set") != nil ==> arg0 == a.alertsLimitedTotal && called("errors.Is") && ret("errors.Is")) && (ret("store.Alerts).Set") == nil ==> arg0 == a.subscriberChannelWrites)
+//@   at call errors.Is assert [asks-about-the-limit] arg0 == ret("store.Alerts).Set") && arg0 != nil && arg1 == store.ErrLimited
 //@   loop 1 invariant rangeindex < len(alerts) && count("store.Alerts).Get") == rangeindex + 1
+//@   loop 1 invariant count("Counter).Inc") == counttrue0("errors.Is") + counttrue0("sendcase.taken") && count("errors.Is") == count("store.Alerts).Set") - countnil0("store.Alerts).Set")
 //@   loop 1 invariant count("PostStore") == countnil0("store.Alerts).Set") && count("store.Alerts).Set") == countnil0("PreStore")
 //@   loop 1 invariant a.listeners == old(a.listeners) && dom(a.listeners) == old(dom(a.listeners)) && count("select") == count("PostStore") * len(a.listeners) && count("PostStore") >= 0
 //@   loop 2 invariant a.listeners == old(a.listeners) && dom(a.listeners) == old(dom(a.listeners)) && count("select") == (count("PostStore") - 1) * len(a.listeners) + len(visited) && count("PostStore") >= 1
+//@   loop 2 invariant count("Counter).Inc") == counttrue0("errors.Is") + counttrue0("sendcase.taken") && count("errors.Is") == count("store.Alerts).Set") - countnil0("store.Alerts).Set")
 //@   loop 2 invariant count("PostStore") == countnil0("store.Alerts).Set") && count("store.Alerts).Set") == countnil0("PreStore")
 //@   loop 2 invariant (forall k int :: (k in visited) ==> (k in a.listeners)) && rangeindex1 + 1 < len(alerts) && count("store.Alerts).Get") == rangeindex1 + 2
 //@   noeffect store.Alerts).Get store.Alerts).Set Alert).Merge PreStore PostStore RecordEvent Inject EnableAlertNamesInMetrics
